@@ -193,6 +193,29 @@ func runC14(c *eng.Ctx) {
 			c.ErrChecked("ERR-vacuum-rpc", "commit-closure", cl, eng.Find(cl, eng.PlainCallTo("VolumeServerClient).VacuumVolumeCommit")), "the commit RPC error is returned")
 		}
 	}
+	// the phases of one round work on the same replicas: commit and cleanup are sent to the list that was compacted
+	if fn := c.NeedFunc("weed/topology", "(*Topology).vacuumOneVolumeLayout"); fn != nil {
+		comp := eng.Find(fn, eng.PlainCallTo("topology.Topology).batchVacuumVolumeCompact"))
+		if len(comp) == 1 {
+			list := eng.Arg(comp[0].(ssa.CallInstruction), 3)
+			for i, in := range eng.Find(fn, eng.PlainCallTo("topology.Topology).batchVacuumVolumeCommit", "topology.Topology).batchVacuumVolumeCleanup")) {
+				c.Ob("GUARD-vacuum-phase", fmt.Sprintf("%s same-replicas#%d", eng.FuncName(fn), i), eng.Arg(in.(ssa.CallInstruction), 3) == list, in.Pos(),
+					"commit / cleanup go to the replicas that were compacted in this round (a replica that was not compacted must not be asked to commit)")
+			}
+		}
+	}
+	// a replica that cannot compact says so: the volume server refuses (error) when the disk has no room for the copy
+	if fn := c.NeedFunc("weed/storage", "(*Store).CompactVolume"); fn != nil {
+		noRoom := eng.Cmp(func(v ssa.Value) bool { return eng.MentionsField(v, "DiskStatus.Free") }, func(v ssa.Value) bool {
+			return eng.Mentions(v, 3, func(x ssa.Value) bool { return eng.IsParam(x, "preallocate") })
+		}, token.LSS)
+		starts := startsOf(eng.PassEdges(fn, noRoom))
+		if len(starts) == 0 {
+			c.Undecided("ERR-compaction", eng.FuncName(fn)+" no-room", fn.Pos(), "free-space test not found")
+		} else {
+			returnsNonNilErr(c, "ERR-compaction", "no-room-is-an-error", fn, starts, "a compaction skipped for lack of disk space is reported as an error (the master must not commit it)")
+		}
+	}
 	// a request that reaches a replica while its compaction is copying is replayed by the commit (replicas end the round
 	// with the same live content): the replay starts from a snapshot taken before the copy
 	snapshotBeforeCopy(c, "ORDER-vacuum-snapshot")
